@@ -454,6 +454,13 @@ func funcsWithListSpineAccess(c *Ctx) []*ast.FuncDecl {
 		if helper(fd) {
 			continue
 		}
+		// an exported method added to a container's interface after the pinned API (Truncate, SortDesc): its own accesses are outside the
+		// property's programs of list operations; helpers it shares with the pinned methods are decided in those
+		if f := c.FuncObj(fd); f != nil && f.Exported() {
+			if ct := c.recvCont(fd); ct != nil && !pinnedAPI[ct.IsList][f.Name()] {
+				continue
+			}
+		}
 		if reach(fd, 0) {
 			out = append(out, fd)
 		}
